@@ -69,5 +69,10 @@ func (monC17) TaskEnd(s *Sim, t *Task) {
 		if !cleanupFalse && !recErr {
 			s.Violate("C17", "error-lost", "cleanup-"+v.Role(), "%s (%s): %d clean-up deletions failed, the status write succeeded, but neither ReconcileError is true nor PodsCleanupDone false", t.Label(), v.Role(), failedCleanup)
 		}
+		// In the active role the failure is also part of the error the sync reports, which the
+		// replica set records as ReconcileError (the canary role only records PodsCleanupDone).
+		if v.Role() == "active" && !recErr && written.Status == "active" {
+			s.Violate("C17", "error-lost", "cleanup-active-unreported", "%s (active): %d clean-up deletions failed and PodsCleanupDone says so, but the sync reported no error (ReconcileError is not true)", t.Label(), failedCleanup)
+		}
 	}
 }
